@@ -2,6 +2,8 @@
 // (same text as ocaml/retr_common.ml).
 //   reset
 //   arr <aid> <rank> <shape..> <dim>*rank       dim = S <dt> <off|-> <unit|-> | R <k> <t1..tk> <unit|-> | L <nlabels> | F <nrows>
+//                                               | A <k> <t1..tk> <unit|->   (rank 1 only: ALIAS range dimension - the array's own data
+//                                                 are the ticks t1 < .. < tk, its unit is the array's unit)
 //   tag <np> <pos..> <ne> <ext..> <nu> <units..>                     (ne = 0: no extent)
 //   ref <aid> | feat <aid> <tagged|untagged|indexed>                 (attached to the tag AND the multi-tag of the case)
 //   mtag <rank> <shape..> <n> <posdata..> <ne> <extdata..> <nu> <units..>   (ne = 0: no extents array)
@@ -33,6 +35,9 @@ static nix::Block block;
 static std::string workdir;
 static long block_no = 0, cases_in_file = 0, obj_no = 0;
 static std::map<std::string, nix::DataArray> arrays;
+// arrays with an alias range dimension hold their ticks, not their flat index: element value -> element id
+static std::map<std::string, std::vector<double>> alias_ticks;
+static std::vector<std::string> ref_aids, feat_aids;
 static nix::Tag the_tag;
 static nix::MultiTag the_mtag;
 static std::vector<std::string> ref_ids;                       // arrays referenced so far (attached to tags created later too)
@@ -48,6 +53,9 @@ static std::string fresh(const char *p) { return std::string(p) + std::to_string
 
 static void reset() {
     arrays.clear();
+    alias_ticks.clear();
+    ref_aids.clear();
+    feat_aids.clear();
     the_tag = nix::none;
     the_mtag = nix::none;
     ref_ids.clear();
@@ -84,8 +92,22 @@ static void make_array(const std::vector<std::string> &t) {
     size_t rank = static_cast<size_t>(dec_int(t[2]));
     nix::NDSize shape(rank);
     for (size_t i = 0; i < rank; i++) shape[i] = dec_u64(t[3 + i]);
-    nix::DataArray a = filled(fresh("a"), shape);
     size_t p = 3 + rank;
+    if (rank == 1 && t.at(p) == "A") {
+        // alias range dimension: the 1-D array describes its own axis; data = ticks, unit = the array's unit
+        size_t n = static_cast<size_t>(dec_int(t.at(p + 1)));
+        std::vector<double> ticks;
+        for (size_t i = 0; i < n; i++) ticks.push_back(dec_dbl(t.at(p + 2 + i)));
+        if (n != shape[0]) throw std::logic_error("alias array: shape and number of ticks differ");
+        nix::DataArray al = doubles(fresh("a"), shape, ticks);
+        boost::optional<std::string> u = unit_opt(t.at(p + 2 + n));
+        if (u) al.unit(*u);
+        al.appendAliasRangeDimension();
+        arrays[t[1]] = al;
+        alias_ticks[t[1]] = ticks;
+        return;
+    }
+    nix::DataArray a = filled(fresh("a"), shape);
     for (size_t d = 0; d < rank; d++) {
         const std::string &k = t.at(p);
         if (k == "S") {
@@ -161,22 +183,39 @@ static std::string nds(const nix::NDSize &s) {
     return out + "]";
 }
 
-static std::string show_view(const nix::DataView &v) {
+// element ids of a view; `alias` = ticks of an alias array (its values are translated back to positions)
+static std::string show_view(const nix::DataView &v, const std::vector<double> *alias) {
     nix::NDSize c = v.dataExtent();
     size_t n = 1;
     for (size_t i = 0; i < c.size(); i++) n *= static_cast<size_t>(c[i]);
     std::vector<double> buf(n > 0 ? n : 1, -1.0);
     if (n > 0) v.getData(nix::DataType::Double, buf.data(), c, nix::NDSize(c.size(), 0));
     std::string out = nds(c) + " [";
-    for (size_t i = 0; i < n; i++) { if (i) out += " "; out += enc_u64(static_cast<unsigned long long>(buf[i])); }
+    for (size_t i = 0; i < n; i++) {
+        if (i) out += " ";
+        if (alias) {
+            size_t k = 0;
+            while (k < alias->size() && std::memcmp(&(*alias)[k], &buf[i], 8) != 0) k++;
+            out += k < alias->size() ? enc_u64(k) : std::string("?") + enc_dbl(buf[i]);
+        } else {
+            out += enc_u64(static_cast<unsigned long long>(buf[i]));
+        }
+    }
     return out + "]";
 }
 
-static std::string show_views(const std::vector<nix::DataView> &vs) {
+static std::string show_views(const std::vector<nix::DataView> &vs, const std::vector<double> *alias) {
     std::string out = std::to_string(vs.size());
-    for (auto &v : vs) out += " {" + show_view(v) + "}";
+    for (auto &v : vs) out += " {" + show_view(v, alias) + "}";
     return out;
 }
+
+static const std::vector<double> *alias_of(const std::string &aid) {
+    auto it = alias_ticks.find(aid);
+    return it == alias_ticks.end() ? nullptr : &it->second;
+}
+static const std::vector<double> *alias_of_ref(size_t r) { return r < ref_aids.size() ? alias_of(ref_aids[r]) : nullptr; }
+static const std::vector<double> *alias_of_feat(size_t k) { return k < feat_aids.size() ? alias_of(feat_aids[k]) : nullptr; }
 
 static bool is_default(const std::string &m) { return m == "default"; }
 static nix::RangeMatch rmode(const std::string &m) {
@@ -216,6 +255,7 @@ static std::string handle(const std::vector<std::string> &t) {
     if (c == "ref") {
         nix::DataArray a = arr(t[1]);
         ref_ids.push_back(a.id());
+        ref_aids.push_back(t[1]);
         if (the_tag) the_tag.addReference(a);
         if (the_mtag) the_mtag.addReference(a);
         return "done";
@@ -225,6 +265,7 @@ static std::string handle(const std::vector<std::string> &t) {
         nix::LinkType lt = t[2] == "tagged" ? nix::LinkType::Tagged : t[2] == "untagged" ? nix::LinkType::Untagged : nix::LinkType::Indexed;
         if (t[2] != "tagged" && t[2] != "untagged" && t[2] != "indexed") throw std::logic_error("bad link type");
         feat_ids.push_back({a.id(), lt});
+        feat_aids.push_back(t[1]);
         if (the_tag) the_tag.createFeature(a, lt);
         if (the_mtag) the_mtag.createFeature(a, lt);
         return "done";
@@ -238,17 +279,17 @@ static std::string handle(const std::vector<std::string> &t) {
     }
     if (c == "tagged") {
         size_t r = static_cast<size_t>(dec_u64(t[1]));
-        if (is_default(t[2])) return show_view(the_tag.taggedData(r));
-        return show_view(nix::util::taggedData(the_tag, static_cast<nix::ndsize_t>(r), rmode(t[2])));
+        if (is_default(t[2])) return show_view(the_tag.taggedData(r), alias_of_ref(r));
+        return show_view(nix::util::taggedData(the_tag, static_cast<nix::ndsize_t>(r), rmode(t[2])), alias_of_ref(r));
     }
     if (c == "taggeda") {
-        if (is_default(t[2])) return show_view(nix::util::taggedData(the_tag, arr(t[1])));
-        return show_view(nix::util::taggedData(the_tag, arr(t[1]), rmode(t[2])));
+        if (is_default(t[2])) return show_view(nix::util::taggedData(the_tag, arr(t[1])), alias_of(t[1]));
+        return show_view(nix::util::taggedData(the_tag, arr(t[1]), rmode(t[2])), alias_of(t[1]));
     }
     if (c == "feature") {
         size_t k = static_cast<size_t>(dec_u64(t[1]));
-        if (is_default(t[2])) return show_view(the_tag.featureData(k));
-        return show_view(nix::util::featureData(the_tag, static_cast<nix::ndsize_t>(k), rmode(t[2])));
+        if (is_default(t[2])) return show_view(the_tag.featureData(k), alias_of_feat(k));
+        return show_view(nix::util::featureData(the_tag, static_cast<nix::ndsize_t>(k), rmode(t[2])), alias_of_feat(k));
     }
     // ---- MultiTag
     if (c == "moffcnt") {
@@ -269,24 +310,24 @@ static std::string handle(const std::vector<std::string> &t) {
     if (c == "mtagged") {
         std::vector<nix::ndsize_t> ix = idxs(t, 3);
         nix::ndsize_t r = dec_u64(t[1]);
-        if (is_default(t[2])) return show_views(the_mtag.taggedData(ix, r));
-        return show_views(nix::util::taggedData(the_mtag, ix, r, rmode(t[2])));
+        if (is_default(t[2])) return show_views(the_mtag.taggedData(ix, r), alias_of_ref(r));
+        return show_views(nix::util::taggedData(the_mtag, ix, r, rmode(t[2])), alias_of_ref(r));
     }
     if (c == "mtagged1") {
         nix::ndsize_t r = dec_u64(t[1]), i = dec_u64(t[3]);
-        if (is_default(t[2])) return show_view(the_mtag.taggedData(static_cast<size_t>(i), static_cast<size_t>(r)));
-        return show_view(nix::util::taggedData(the_mtag, i, r, rmode(t[2])));
+        if (is_default(t[2])) return show_view(the_mtag.taggedData(static_cast<size_t>(i), static_cast<size_t>(r)), alias_of_ref(r));
+        return show_view(nix::util::taggedData(the_mtag, i, r, rmode(t[2])), alias_of_ref(r));
     }
     if (c == "mfeature") {
         std::vector<nix::ndsize_t> ix = idxs(t, 3);
         nix::ndsize_t k = dec_u64(t[1]);
-        if (is_default(t[2])) return show_views(nix::util::featureData(the_mtag, ix, k));
-        return show_views(nix::util::featureData(the_mtag, ix, k, rmode(t[2])));
+        if (is_default(t[2])) return show_views(nix::util::featureData(the_mtag, ix, k), alias_of_feat(k));
+        return show_views(nix::util::featureData(the_mtag, ix, k, rmode(t[2])), alias_of_feat(k));
     }
     if (c == "mfeature1") {
         nix::ndsize_t k = dec_u64(t[1]), i = dec_u64(t[3]);
-        if (is_default(t[2])) return show_view(the_mtag.featureData(static_cast<size_t>(i), static_cast<size_t>(k)));
-        return show_view(nix::util::featureData(the_mtag, i, k, rmode(t[2])));
+        if (is_default(t[2])) return show_view(the_mtag.featureData(static_cast<size_t>(i), static_cast<size_t>(k)), alias_of_feat(k));
+        return show_view(nix::util::featureData(the_mtag, i, k, rmode(t[2])), alias_of_feat(k));
     }
     throw std::logic_error("bad command " + c);
 }
